@@ -46,7 +46,7 @@ def isRefTy (ty : Nat) : Bool :=
   [tyString, tyKeyword, tySymbol, tyFunction, tyArray, tyTable, tyStruct, tyTuple, tyBuffer, tyFiber, tyAbstract].contains ty
 
 /-- `janet_mark(roots[i])`: the edge a root value contributes -/
-def RVal.edge (a : RVal) : List Edge := if isRefTy a.ty then [⟨true, a.payload⟩] else []
+def RVal.edge (a : RVal) : List Edge := if isRefTy a.ty then [⟨true, a.payload, false⟩] else []
 
 structure VM where
   roots : List RVal := []
@@ -178,6 +178,7 @@ inductive ROp where
   | safepoint (forced : Bool)
   | smalloc (id : Nat)
   | sfree (id : Nat)
+  | setInterval (n : Nat)            -- corelib.c janet_core_gcsetinterval: janet_vm.gc_interval = s
   deriving Repr
 
 def heapAdd (h : Heap) (o : Obj) : Heap :=
@@ -198,6 +199,7 @@ def stepOp (D : Nat) (s : Heap × VM) : ROp → (Heap × VM) × Int
   | .sfree id => match sfree s.2 id with
     | some vm => ((s.1, vm), 0)
     | none => (s, -1)
+  | .setInterval n => ((s.1, { s.2 with gcInterval := n }), 0)
 
 def runOps (D : Nat) (s : Heap × VM) (ops : List ROp) : Heap × VM := ops.foldl (fun s op => (stepOp D s op).1) s
 
